@@ -76,7 +76,9 @@ impl Twins {
             o => o,
         };
         let b = self.nat.step(nop);
-        let what = format!("{} cw20:{} native:{}", op.name(), if a.tx.ok { "ok" } else { "failed" }, if b.tx.ok { "ok" } else { "failed" });
+        // a ClosePosition that left a position behind closed only the configured fraction
+        let partial = matches!(op, Op::Close { .. }) && a.tx.ok && a.post.pos[&(0, who)].as_ref().map(|p| !p.size.value.is_zero()).unwrap_or(false);
+        let what = format!("{}{} cw20:{} native:{}", op.name(), if partial { "-partial" } else { "" }, if a.tx.ok { "ok" } else { "failed" }, if b.tx.ok { "ok" } else { "failed" });
         prove_d("C13/same-success-or-failure", Cond::from_bool(a.tx.ok == b.tx.ok), format!("{} cw20-err={} native-err={}", what, sx::norm(&a.tx.err), sx::norm(&b.tx.err)));
         if !(a.tx.ok && b.tx.ok) {
             return (a.tx.ok, b.tx.ok);
@@ -240,6 +242,102 @@ fn lockstep(kind: u8, side: Side, fees: bool, seed: u64) -> impl Fn() {
     }
 }
 
+struct Rng(u64);
+impl Rng {
+    fn next(&mut self) -> u64 {
+        self.0 = self.0.wrapping_add(0x9E3779B97F4A7C15);
+        let mut z = self.0;
+        z = (z ^ (z >> 30)).wrapping_mul(0xBF58476D1CE4E5B9);
+        z = (z ^ (z >> 27)).wrapping_mul(0x94D049BB133111EB);
+        z ^ (z >> 31)
+    }
+    fn pick<T: Copy>(&mut self, xs: &[T]) -> T {
+        xs[(self.next() % xs.len() as u64) as usize]
+    }
+    fn chance(&mut self, pct: u64) -> bool {
+        self.next() % 100 < pct
+    }
+}
+
+/// a pseudo-random history (4-8 operations over three traders and two liquidators: opens of both
+/// sides, closes, deposits, withdrawals, liquidation attempts, funding settlements with oracle
+/// moves, block gaps; per-history fees, partial ratio, liquidation fee, price band) applied to the
+/// twins in lock-step; amounts concrete except the last operation's
+fn lockstep_gen(idx: u64, seed: u64) -> impl Fn() {
+    move || {
+        let mut g = Rng(seed.wrapping_mul(2_000_003).wrapping_add(idx).wrapping_mul(0x2545F4914F6CDD1D) ^ 0x7717);
+        let fees = g.chance(50);
+        let partial = g.pick(&[0u128, 0, 4, 2, 1]);
+        let liq_fee_pct = g.pick(&[1u128, 5, 5]);
+        let band = g.chance(20);
+        let mk = |native: bool| {
+            let mut cfg = Cfg::base(native, 6);
+            let d = cfg.d();
+            cfg.init_ratio = Uint128::new(d / 10);
+            if fees {
+                cfg.toll = Uint128::new(d / 100);
+                cfg.spread = Uint128::new(d / 50);
+            }
+            if partial > 0 {
+                cfg.partial_ratio = Uint128::new(d / partial);
+            }
+            cfg.liq_fee = Uint128::new(d * liq_fee_pct / 100);
+            cfg
+        };
+        let mut t = Twins { cw: Run::new(mk(false), Mon::none()), nat: Run::new(mk(true), Mon::none()) };
+        let d = t.cw.w.d;
+        symrt::set_full(false);
+        if band {
+            let f = Uint128::new(g.pick(&[d / 50, d / 10]));
+            for w in [&mut t.cw.w, &mut t.nat.w] {
+                assert!(w.update_vamm(0, None, None, None, None, Some(f), None).ok);
+            }
+        }
+        let traders = [ALICE, BOB, CAROL];
+        let n = 4 + (g.next() % 5) as usize;
+        let mut desc = String::new();
+        for i in 0..n {
+            let last = i + 1 == n;
+            if last {
+                symrt::set_full(true);
+            }
+            let who = g.pick(&traders);
+            let k = g.next() % 100;
+            let op = if k < 40 || i == 0 {
+                let side = if g.chance(50) { Side::Buy } else { Side::Sell };
+                let units = g.pick(&[1u128, 3, 5, 10, 20, 25, 40, 60]);
+                let lev = Uint128::new(g.pick(&[1u128, 2, 2, 5, 10]) * d);
+                let margin = if last { amount("gm", d, false, units) } else { Uint128::new(units * d) };
+                Op::Open { who, side, margin, lev, limit: Uint128::zero(), funds: None }
+            } else if k < 55 {
+                Op::Close { who, limit: Uint128::zero() }
+            } else if k < 62 {
+                let a = if last { amount("gd", d, false, 5) } else { Uint128::new(g.pick(&[1u128, 5, 30]) * d) };
+                Op::Deposit { who, amount: a, funds: None }
+            } else if k < 72 {
+                let a = if last { amount("gw", d, false, 2) } else { Uint128::new(g.pick(&[1u128, 2, 10]) * d) };
+                Op::Withdraw { who, amount: a }
+            } else if k < 86 {
+                Op::Liquidate { by: g.pick(&[LIQ, EVE]), trader: who, limit: Uint128::zero() }
+            } else {
+                t.next_block(86_400);
+                let price = Uint128::new(g.pick(&[3u128, 8, 10, 12, 30]) * d);
+                for w in [&mut t.cw.w, &mut t.nat.w] {
+                    let now = w.now();
+                    w.set_oracle(price, now);
+                }
+                Op::PayFunding { by: EVE }
+            };
+            desc += &format!("{}{} ", op.name(), if last { "*" } else { "" });
+            t.step(op);
+            if g.chance(75) {
+                t.next_block(g.pick(&[15u64, 15, 900, 1000]));
+            }
+        }
+        symrt::log_event(format!("history: {}fees={} partial=1/{} band={}", desc, fees, partial, band));
+    }
+}
+
 pub fn scenarios(seed: u64) -> Vec<Scenario> {
     let mut v = vec![];
     let d = "twin deployments (native uwasm / cw20, 6 decimals, same parameters), same symbolic history in lock-step; per step: same success, Position records, vAMM state, engine state and per-account balance deltas proved equal";
@@ -251,6 +349,11 @@ pub fn scenarios(seed: u64) -> Vec<Scenario> {
                 v.push(sc("C13", tier, &format!("c13.{}.{}{}", kn, sn, if fees { ".fees" } else { "" }), d, 500, 150, lockstep(k, side.clone(), fees, seed)));
             }
         }
+    }
+    let dg = "twin deployments, pseudo-random lock-step history of 4-8 operations (opens of both sides and several leverages, closes incl. partial ones under a band, deposits, withdrawals, liquidation attempts, funding settlements with oracle moves) with per-history fees / partial ratio / liquidation fee / price band; concrete except the last operation";
+    for idx in 0..120u64 {
+        let tier = if idx < 24 { Tier::Quick } else { Tier::Thorough };
+        v.push(sc("C13", tier, &format!("c13.gen.{:03}", idx), dg, 200, 60, lockstep_gen(idx, seed)));
     }
     v
 }
